@@ -1,5 +1,7 @@
 import Marwood.Lemmas.PrintCanon
 import Marwood.Lemmas.PrintStore
+import Marwood.Lemmas.MachineDatum
+import Marwood.Lemmas.GoodDemo
 /-!
 # C10 — written data reads back as the same data
 
@@ -18,6 +20,9 @@ every double the correspondence uses.
   symbols), and `readable_of_fragment`;
 * T10.2  `heap_roundtrip`, `heap_roundtrip_unboxed`, `eval_quote_id`, and the composition
   `text_heap_result_text`, `source_text_trip` (the text `(quote <written>)`);
+* T10.2 on the **concrete heap** (`Vm/ConcreteHeap.lean`: real free list, growth, symbol interning):
+  `put_then_read_cell_concrete`, `heap_roundtrip_concrete`, `heap_read_unique_concrete` (atoms and pairs — lists, dotted
+  lists, nested; vectors not covered);
 * atoms: `string_escape_inverse`, `string_token_self_delimiting`, `char_spelling_inverse`,
   `char_token_self_delimiting`, `exact_number_token`, `plain_identifier_token`;
 * the class of symbols excluded by `Readable` is real: `prefix_symbol_not_readable` (known finding).
@@ -328,5 +333,59 @@ example : Readable noFloats (.sym "...".toList) := by
     simp only [e, if_true, dotSymbolTail, this]
   simp only [List.nil_append, h4, if_true]
   rfl
+
+/-! ## T10.2 on the concrete heap
+
+`heap_roundtrip` above is about an abstract store with fresh allocation. The same conversion on the concrete heap
+`CHeap` (cells + 2-bit map + free list + symbol table; `putV` = `Heap::put` with interning; the allocator takes
+the head of the free list or grows). A concrete cell keeps scalar payloads (as an `opaque` tag whose first
+character is the kind), so the round trip is exact; the coding of number payloads as text is the parameter
+`NumCode` (any coding with a left inverse; inhabited: `unaryNumCode`). -/
+
+section concrete
+open Marwood.Vm.Concrete Marwood.Lemmas.Sim Marwood.Lemmas.Good Marwood.Lemmas.MachineDatum
+open Marwood.Heap (WFHeap)
+
+/-- **T10.2, one cell, real allocator.** `Heap::put` of any non-pointer value `v` on a well-formed concrete heap
+returns a pointer to an allocated cell holding exactly `v` (payload included) — whether the cell came off the
+free list, from growth, or is the interned cell of a symbol — and every allocated cell keeps its content. -/
+theorem put_then_read_cell_concrete {h : CHeap} (wf : WFHeap true (toHeap h)) {v : Vm.VCell}
+    (hnp : isPtr v = false) :
+    ∃ p, (putV h v).2 = .ptr p ∧ deref (putV h v).1 (putV h v).2 = v ∧ p ∉ (putV h v).1.free ∧
+      Keeps h (putV h v).1 := by
+  obtain ⟨p, hq, hc, hf, hk⟩ := putV_cell wf hnp
+  refine ⟨p, hq, ?_, hf, hk⟩
+  rw [hq]
+  simp only [deref, getAt, hc]
+  rfl
+
+/-- **T10.2 on the concrete heap.** For every datum built from atoms (booleans, characters, numbers of every
+representation, strings, symbols, nil, void, undefined) and pairs — proper and dotted lists, nested arbitrarily —
+`putDatum` (`put_cell`: car, cdr, then the pair, each through `Heap::put`) on a well-formed heap returns an address
+that reads back (`Rep`: `get_as_cell` as a relation) as the datum; every previously allocated cell keeps its
+content (so data stored earlier, interned symbols included, still read as before: `Rep.keeps`); the heap stays
+well-formed. `Small` is the physical size bound on the final heap. -/
+theorem heap_roundtrip_concrete (nc : NumCode) (d : Datum) {h h' : CHeap} {p : Nat}
+    (wf : WFHeap true (toHeap h)) (hp : putDatum nc h d = some (h', p)) (sm : Small h') :
+    Rep nc h' p d ∧ Keeps h h' ∧ WFHeap true (toHeap h') ∧
+      (∀ q x, Rep nc h q x → Rep nc h' q x) := by
+  have r := putDatum_rep nc d wf hp sm
+  exact ⟨r.rep, r.keeps, r.wf, fun _ _ rq => rq.keeps r.keeps⟩
+
+/-- reading is a function: what `putDatum` returns reads as the datum **and as nothing else** -/
+theorem heap_read_unique_concrete (nc : NumCode) (d d' : Datum) {h h' : CHeap} {p : Nat}
+    (wf : WFHeap true (toHeap h)) (hp : putDatum nc h d = some (h', p)) (sm : Small h')
+    (r' : Rep nc h' p d') : d' = d :=
+  (putDatum_rep nc d wf hp sm).rep.unique r' |>.symm
+
+/-- `putDatum` succeeds exactly on data that have a heap form here; e.g. a dotted pair of a symbol and a string on
+the demo heap of Lemmas/GoodDemo.lean (cells 1 and 2 come off the free list, then the pair cell 3) -/
+example (nc : NumCode) : ∃ h', putDatum nc Demo.hHalt (.pair (.sym ['a']) (.str ['b'])) = some (h', 3) :=
+  ⟨_, rfl⟩
+
+/-- the hypotheses are satisfiable: the demo heap is well-formed, `NumCode` is inhabited -/
+example : WFHeap true (toHeap Demo.hHalt) ∧ Nonempty NumCode := ⟨Demo.hHalt_hg.wf, ⟨unaryNumCode⟩⟩
+
+end concrete
 
 end Marwood.Proofs.C10
